@@ -367,7 +367,7 @@ func main() {
 	a := vh.ParseArgs()
 	res := vh.NewResult("C07", a.Seed, a.Tier)
 	c := &checker{a: a, res: res, specs: map[string]string{}, only: os.Getenv("C07_ONLY")}
-	res.Rule = "for every protocol driver (session setup, Gennaro, Canetti, HJKY zero sharing, redistribution/refresh, DKLs23 bbot+softspoken, Lindell22 bip340/vanilla/mina (thorough: p256, negated), Boldyreva, Lindell17, base OT ecbbot (thorough: rvole/bbot on its own)) with 3 parties (OT-based protocols 2; thorough: 5 resp. 3): one base run, one paired run per party position (thorough: 3 seeds) that differs in exactly that party's tape label, a sequence of sessions (3, heavy protocols 2; thorough 10 resp. 4) on the same key material with fresh tapes; per run and party: every Read of the recording tape against the model's draws table, every tied wire field against the model's sample at the specified offset, the joint value against the model's combination; a case is non-trivial when the run completed with verdict ok for every party"
+	res.Rule = "for every protocol driver (session setup, Gennaro, Canetti, HJKY zero sharing, redistribution/refresh, DKLs23 bbot+softspoken, Lindell22 bip340/vanilla/mina (thorough: p256, negated), Boldyreva, Lindell17, base OT ecbbot (thorough: rvole/bbot on its own)) with 3 parties (OT-based protocols 2; thorough: 5 resp. 3): one base run, one paired run per party position (thorough: 3 seeds) that differs in exactly that party's tape label, a sequence of sessions (3, heavy protocols 2; thorough 10 resp. 4) on the same key material with fresh tapes; per run and party: every Read of the recording tape against the model's draws table, every tied wire field against the model's sample at the specified offset, the joint value against the model's combination; in addition the stingy-source family: per protocol base + paired run (+ a second session for signing protocols) with tapes that serve at most k bytes per Read call (k in {1,7,31}: one k per protocol in the quick tier, all three in the thorough tier), tied on the byte log (bytes served per round = specification; every tied field = model sample of the served bytes at the specified byte offset); a case is non-trivial when the run completed with verdict ok for every party"
 
 	protos := protocols(a.Tier)
 	seeds := []int64{a.Seed}
